@@ -22,7 +22,7 @@ def insertedAt (old new : List DNode) : Nat :=
 def addImplicit (S : Schema) (cx : Cx) (sibs : List DNode) (n : DNode) : List DNode × Out :=
   let sibs' := insertNode S sibs n
   let idx := insertedAt sibs sibs'
-  (sibs', Out.ofEvs [{ op := .create, anc := cx.anc, node := n, anchor := userordAnchor S sibs' idx n }])
+  (sibs', Out.ofEvs [{ op := .create, anc := cx.anc, node := n, anchor := userordAnchor S sibs' idx n, src := .implicit }])
 
 /-- the non-choice schema nodes of a level -/
 def implNodes (S : Schema) (o : VOpts) (cx : Cx) : List STree → List DNode → List DNode × Out
